@@ -218,7 +218,7 @@ class Written:
                 rest = None
                 if rec.data == w["text"]:
                     rest = rec.stacktrace or ""
-                elif isinstance(rec.data, str) and rec.data.startswith(w["text"] + "\n"):
+                elif isinstance(rec.data, str) and rec.data.startswith(w["text"]):
                     rest = rec.data[len(w["text"]):] + (rec.stacktrace or "")
                 if rest is not None and w["exc_line"] in rest:
                     return i + 1
